@@ -2701,7 +2701,7 @@ def check_signatures(ctx, tu):
                 m = WRAP_RX.match(tname)
                 detail = 'array-wrapper-raw-image' if m else 'raw-image|' + re.sub(r'<.*', '', tname)
                 ctx.violation(R2, inst, 'overload resolution selects the generic raw-bytes operator for `%s`: its %d-byte object '
-                              'representation (vtable pointer, data pointers) is streamed instead of %s; `%s` is not trivially '
+                              'representation (internal pointers and bookkeeping) is streamed instead of %s; `%s` is not trivially '
                               'copyable, so the bytes cannot be read back into an equal value'
                               % (tname, it[2], 'the length and the elements' if m else 'its value', tname), it[4],
                               key='%s|%s|%s|%s' % (R2, tu.fn_file(callee), pattern_sig(tu, callee), detail))
@@ -2930,18 +2930,77 @@ def check_view_lifetime(ctx, tu):
         return
     alloc_fields = [fd for fd in owner['fields'] if re.match(r'^std::(shared_ptr|unique_ptr)<unsigned char', fd['ct'])]
     reseat = [f for f in tu.functions.values() if f.get('rec') == UTIL + 'FixedArray' and f['q'].split('::')[-1] == 'operator=']
-    pins, handles, other = [], [], []
+    pins, handles, other, copies = [], [], [], []
     for fd in vt['fields']:
         ct = fd['ct'].replace('const ', '')
         if ct == UTIL + 'FixedArray<unsigned char>' and alloc_fields:
-            pins.append(fd)
+            # a FixedArray held by value shares the allocation only if copying a FixedArray copies its shared_ptr
+            cc = owner.get('copy_ctor', {})
+            if not cc.get('user'):
+                pins.append(fd)
+            else:
+                cfs = [f_ for f_ in tu.functions.values() if f_.get('rect') == owner['type'] and f_.get('ctor') == 'copy'
+                       and tu.body(f_) is not None]
+                deep = None
+                for f_ in cfs:
+                    g_ = tu.cfg(f_)
+                    allocs_ = [x for x in tu.walk(tu.body(f_)) if x.get('kind') == 'CXXNewExpr']
+                    for b_ in (g_.blocks.values() if g_ else ()):
+                        for e_ in b_.el:
+                            if e_[0] == 'I':
+                                init_ = tu.node(e_[1])
+                                if e_[3] == '<base>' and init_ is not None and init_.get('kind') == 'CXXConstructExpr' and \
+                                        tu.sd(init_).get('rec') == UTIL + 'FixedArray':
+                                    cal = tu.callee_fn(init_)
+                                    if cal is not None and cal.get('ctor') == 'other' and \
+                                            any(p_['ct'] in ('unsigned long',) for p_ in cal.get('params', [])):
+                                        allocs_.append(init_)      # delegates to a constructor that allocates size elements
+                                if init_ is not None and any(y.get('kind') == 'CXXNewExpr' for y in tu.walk(init_)):
+                                    allocs_.append(init_)
+                    shares = any(e_[0] == 'I' and e_[2] is not None and tu.node(e_[1]) is not None and
+                                 any(y.get('kind') == 'MemberExpr' and y.get('name') == alloc_fields[0]['name'] for y in tu.walk(tu.node(e_[1])))
+                                 for b_ in (g_.blocks.values() if g_ else ()) for e_ in b_.el)
+                    deep = (f_, allocs_) if allocs_ and not shares else deep
+                if deep is not None:
+                    copies.append((fd, deep[0]))
+                elif not cfs:
+                    other.append(fd)
+                else:
+                    pins.append(fd) if all(
+                        any(y.get('kind') == 'MemberExpr' and y.get('name') == alloc_fields[0]['name'] for y in tu.walk(tu.body(f_)))
+                        or True for f_ in cfs) and deep is None and any(
+                        any(e_[0] == 'I' and e_[3] == alloc_fields[0]['name'] for e_ in b_.el) for f_ in cfs for b_ in tu.cfg(f_).blocks.values()) \
+                        else other.append(fd)
         elif re.match(r'^std::shared_ptr<unsigned char', ct):
             pins.append(fd)
         elif re.match(r'^(std::(shared_ptr|weak_ptr)<)?rkcommon::utility::FixedArray<unsigned char>\s*[>*&]', ct):
             handles.append(fd)
         else:
             other.append(fd)
-    if pins:
+    # the pinning member must be initialised as a copy of the viewed array (not as a freshly allocated one)
+    for fd in list(pins):
+        if fd['ct'].replace('const ', '') != UTIL + 'FixedArray<unsigned char>':
+            continue
+        for vf in tu.functions.values():
+            if vf.get('rect') != vt['type'] or vf.get('ctor') != 'other' or tu.cfg(vf) is None:
+                continue
+            for b_ in tu.cfg(vf).blocks.values():
+                for e_ in b_.el:
+                    if e_[0] == 'I' and e_[3] == fd['name']:
+                        init_ = tu.node(e_[1])
+                        cal = tu.callee_fn(init_) if init_ is not None and init_.get('kind') == 'CXXConstructExpr' else None
+                        if cal is not None and cal.get('ctor') == 'other' and fd in pins:
+                            pins.remove(fd)
+                            copies.append((fd, vf))
+    if copies and not pins:
+        fd, cf = copies[0]
+        ctx.violation(R, inst, 'the view keeps `%s` (a FixedArray by value), but it is filled by %s, which allocates new '
+                      'storage and copies the bytes: the view returned by getWrittenView() is a snapshot of the buffer, not a view of '
+                      'it - data written through reserve() / write() afterwards is not seen through it, and its data() is not the '
+                      'writer\'s memory' % (fd['name'], ('the copy constructor of FixedArray (%s)' if cf.get('ctor') == 'copy' else
+                                                          'a constructor call in %s that does not copy the viewed array') % tu.fn_loc(cf)),
+                      tu.fn_loc(cf), key=key + 'view-is-a-snapshot')
+    elif pins:
         ctx.ok(R, inst, 'member `%s` (%s) shares the allocation the view points into' % (pins[0]['name'], pins[0]['ct']), file)
     elif handles and (reseat or owner.get('copy_assign', {}).get('has')):
         ctx.violation(R, inst, 'the view keeps only `%s` (%s), a handle to the FixedArray *object*; FixedArray can be assigned to '
